@@ -283,6 +283,15 @@ def _shipped_task(task):
                                                  "expected": exp, "observed": obs})
 
     ks = C.edge_scalars(q, seed, 1)[:8]
+    # frozen multiples whose encoding is structurally rare: every result must be encodable AND decodable
+    for cls, k in sorted(C.rare_multiples(name).items()):
+        exp = R.enc(R.mul(R.base(), k))
+        got = T.observe(lambda: g.bytes_to_element(g.Base.scalarmult(k).to_bytes()).to_bytes())
+        acc.n(transitions=1)
+        if got != ("ok", exp):
+            viol("roundtrip", "an element obtained by scalarmult (%s encoding) does not decode from its own encoding" % cls,
+                 {"op": "rt_mul", "args": [k]}, exp, got)
+        acc.seen((fam, "rare", cls))
     elems = {}
     for k in ks:
         got = T.observe(lambda: g.Base.scalarmult(k))
@@ -392,6 +401,8 @@ def replay(rec):
 
     if op == "base_mul":
         return T.observe(lambda: g.Base.scalarmult(args[0]).to_bytes())
+    if op == "rt_mul":
+        return T.observe(lambda: g.bytes_to_element(g.Base.scalarmult(args[0]).to_bytes()).to_bytes())
     if op in ("add_mul", "eq_mul", "sub_mul", "sum_mul"):
         a, b = el(args[0], args[2]), el(args[1], args[3])
         if op == "add_mul":
